@@ -141,6 +141,18 @@ PROPS["C03"] = dict(
     assumptions=["reference semantics is right", "graphs rejected by Check are outside the domain (counted under labels)"],
     jobs=[job("composition", "^TestComposition$", (4, 16), (4000, 25000), (600, 3000))],
 )
+PROPS["C04"] = dict(
+    pkg="c04", level="exploration",
+    technique="metamorphic/relational testing between two entry points: Check vs Validate-of-own-example on generated ruled schemas, plus single-rule corruptions with printer-recorded value offsets",
+    level_text=("Bounded exploration: (a) for generated plain-JSON schemas with arbitrary rule combinations, whenever Check succeeds the example rendered as bare JSON must validate against the same schema; "
+                "(b) for each accepted schema one ruled node's example is replaced by a value violating exactly that rule (bound, precision, length, pattern, enum, format, item count, declared type) and Check "
+                "must fail reporting the offset of that value as recorded by the schema printer. Sampled."),
+    level_note="trusted: the schema printer's offsets and the corruption constructors (each corruption is built from the rule parameter, not from the library)",
+    rule=("schemas: trees (depth<=3) of objects/arrays whose scalar nodes carry the C02 rule sets and whose arrays may carry minItems/maxItems, objects additionalProperties; inline and multi-line annotations. "
+          "non-trivial: (a) Check succeeded and a rule sits at depth>=1; (b) every corruption. distinct by schema text"),
+    assumptions=["a corrupted value violates the targeted rule (constructed from the rule parameter with exact arithmetic / regexp)"],
+    jobs=[job("check-vs-example", "^TestCheckVsExample$", (4, 16), (3000, 30000), (600, 3000))],
+)
 
 _UNBUILT = "check under construction in this session (see DESIGN.md section 5 for the planned design)"
 NOT_APPLICABLE = [dict(property_id="C%02d" % i, reason=_UNBUILT) for i in range(1, 20) if "C%02d" % i not in PROPS]
